@@ -7,6 +7,25 @@
 #include <utility>
 #include <vector>
 
+#ifdef EPHEMERALNET_VERIF
+// Verification hook: the harness may install a callback that is told about every filesystem
+// operation of the chunk store just before it happens (crash-point enumeration).
+namespace ephemeralnet::verif {
+using ChunkStoreFsOpHook = void (*)(const char* operation, const char* path);
+ChunkStoreFsOpHook g_chunkstore_fsop = nullptr;
+}  // namespace ephemeralnet::verif
+#define EPH_VERIF_FSOP(operation, path)                                                       \
+    do {                                                                                      \
+        if (::ephemeralnet::verif::g_chunkstore_fsop != nullptr) {                            \
+            ::ephemeralnet::verif::g_chunkstore_fsop((operation), (path).string().c_str());   \
+        }                                                                                     \
+    } while (0)
+#else
+#define EPH_VERIF_FSOP(operation, path) \
+    do {                                \
+    } while (0)
+#endif
+
 namespace ephemeralnet {
 
 namespace {
@@ -164,35 +183,43 @@ bool ChunkStore::persist_chunk_to_disk(const std::string& key, const ChunkRecord
     }
 
     const auto path = chunk_path_for_key(key);
+    EPH_VERIF_FSOP("persist.exists", path);
     if (std::filesystem::exists(path)) {
         secure_wipe_file(path);
     }
 
+    EPH_VERIF_FSOP("persist.open-trunc", path);
     std::ofstream stream(path, std::ios::binary | std::ios::trunc);
     if (!stream) {
         return false;
     }
 
+    EPH_VERIF_FSOP("persist.write", path);
     stream.write(reinterpret_cast<const char*>(record.data.data()), static_cast<std::streamsize>(record.data.size()));
+    EPH_VERIF_FSOP("persist.flush", path);
     stream.flush();
     if (!stream) {
         secure_wipe_file(path);
         return false;
     }
+    EPH_VERIF_FSOP("persist.done", path);
     return true;
 }
 
 bool ChunkStore::secure_wipe_file(const std::filesystem::path& path) const {
     std::error_code ec;
+    EPH_VERIF_FSOP("wipe.exists", path);
     if (!std::filesystem::exists(path, ec)) {
         return true;
     }
 
+    EPH_VERIF_FSOP("wipe.file_size", path);
     const auto size = std::filesystem::file_size(path, ec);
     if (ec) {
         return false;
     }
 
+    EPH_VERIF_FSOP("wipe.open", path);
     std::fstream stream(path, std::ios::binary | std::ios::in | std::ios::out);
     if (!stream) {
         return false;
@@ -204,16 +231,20 @@ bool ChunkStore::secure_wipe_file(const std::filesystem::path& path) const {
         std::uint64_t remaining = size;
         while (remaining > 0) {
             const auto chunk = static_cast<std::streamsize>(std::min<std::uint64_t>(buffer.size(), remaining));
+            EPH_VERIF_FSOP("wipe.write", path);
             stream.write(buffer.data(), chunk);
             remaining -= static_cast<std::uint64_t>(chunk);
         }
+        EPH_VERIF_FSOP("wipe.flush", path);
         stream.flush();
         if (!stream) {
             break;
         }
     }
+    EPH_VERIF_FSOP("wipe.close", path);
     stream.close();
 
+    EPH_VERIF_FSOP("wipe.remove", path);
     std::filesystem::remove(path, ec);
     return !std::filesystem::exists(path, ec);
 }
